@@ -1,0 +1,22 @@
+//go:build verif
+
+package packfile
+
+import (
+	"io"
+
+	"github.com/wrgl/wrgl/pkg/misc"
+)
+
+// VerifEncodeObjTypeAndLen exposes encodeObjTypeAndLen to the verification harness.
+func VerifEncodeObjTypeAndLen(objType int, u uint64) []byte {
+	b := encodeObjTypeAndLen(misc.NewBuffer(nil), objType, u)
+	c := make([]byte, len(b))
+	copy(c, b)
+	return c
+}
+
+// VerifDecodeObjTypeAndLen exposes decodeObjTypeAndLen to the verification harness.
+func VerifDecodeObjTypeAndLen(r io.Reader) (int, uint64, error) {
+	return decodeObjTypeAndLen(r)
+}
